@@ -96,7 +96,7 @@ _PROCESS_DEPENDENT = [
 ]
 
 
-def gen_module(rng: random.Random, process_dependent: bool = False) -> str:
+def gen_module(rng: random.Random, process_dependent: bool = False, special: bool = False) -> str:
     """A small module that triggers a handful of rules: unused code, loops to
     comprehensions, redundant elses, constant conditions, unsorted imports."""
     k = [0]
@@ -106,6 +106,53 @@ def gen_module(rng: random.Random, process_dependent: bool = False) -> str:
         return f"{prefix}{k[0]}"
 
     parts: List[str] = []
+    if process_dependent and rng.random() < 0.35:
+        # a multi-line module docstring in front of names that are used but never imported: where and
+        # in which order the guessed imports are inserted must not depend on set iteration
+        names = rng.sample(["os", "sys", "re", "json", "math", "itertools", "functools", "random"], rng.randint(2, 4))
+        doc = rng.choice(['"""Module doc.\n\nSecond paragraph of the docstring.\n"""', "\'\'\'Summary line\n\nmore text\nand more\n\'\'\'", '"""One line docstring."""'])
+        uses = "".join(f"print({n}.__name__)\n" for n in names)
+        text = doc + "\n" + uses
+        try:
+            ast.parse(text)
+            return text
+        except (SyntaxError, ValueError):
+            pass
+    if process_dependent and rng.random() < 0.3:
+        # the same string value in several spellings, next to code a rule re-renders: which original
+        # spelling is restored must not depend on set iteration
+        val = rng.choice(["abc", "some text", "x-y-z", "path/to/file"])
+        spellings = rng.sample([f'"{val}"', f"\'{val}\'", f'"""{val}"""', f"\'\'\'{val}\'\'\'", f'r"{val}"'], rng.randint(2, 4))
+        lines = [f"s{i} = {sp}" for i, sp in enumerate(spellings)]
+        lines.append(rng.choice([f'z = tuple(["{val}", 1])', f'z = list(("{val}", 2))', f'z = set(["{val}"])', f'w = [x for x in ["{val}"]]\nz = list(w)']))
+        lines.append("print(z, " + ", ".join(f"s{i}" for i in range(len(spellings))) + ")")
+        text = "\n".join(lines) + "\n"
+        try:
+            ast.parse(text)
+            return text
+        except (SyntaxError, ValueError):
+            pass
+    if rng.random() < (0.5 if special else 0.12):
+        # several different constants, each used equally often and often enough to be abstracted:
+        # which one gets which generated name must not depend on set / address order
+        n_consts = rng.randint(2, 3)
+        uses = rng.choice([5, 5, 6])
+        consts = rng.sample([
+            '"some/path/to/a/thing/number-one"', '"another-fairly-long-constant-value"', "(1, 2, 3, 4, 5, 6, 7, 8, 9, 10)",
+            '"yet another constant, with spaces"', "[10, 20, 30, 40, 50, 60, 70, 80]", '"https://example.invalid/some/long/url"',
+        ], n_consts)
+        lines = []
+        order = [c for c in consts for _ in range(uses)]
+        rng.shuffle(order)
+        for i, c in enumerate(order):
+            lines.append(f"def user_{i}():\n    return {c}\n")
+        lines.append("print(" + ", ".join(f"user_{i}()" for i in range(len(order))) + ")\n")
+        text = "\n\n".join(lines)
+        try:
+            ast.parse(text)
+            return text
+        except (SyntaxError, ValueError):
+            pass
     imports = rng.sample(["import os", "import sys", "import re", "from pathlib import Path", "import json", "import math"], rng.randint(0, 3))
     parts.extend(imports)
     n = rng.randint(2, 6)
